@@ -159,7 +159,7 @@ fn third(b: &mut Body, rng: &mut Rng) -> P {
 }
 
 fn gen_body(rng: &mut Rng) -> Body {
-    let shapes = ["chain", "star", "triangle", "cycle4", "cycle5", "clique4", "lollipop", "product", "random", "single", "pair"];
+    let shapes = ["chain", "star", "triangle", "cycle4", "cycle5", "clique4", "lollipop", "product", "random", "single", "pair", "bowtie", "bowtie", "cactus"];
     let shape = *rng.pick(&shapes);
     let mut b = Body { shape, var_ty: vec![], atoms: vec![], guards: vec![] };
     let sv = |b: &mut Body, n: usize| -> Vec<usize> { (0..n).map(|_| b.new_var(Ty::S)).collect() };
@@ -208,6 +208,29 @@ fn gen_body(rng: &mut Rng) -> Body {
             }
             edge(&mut b, rng, v[2], v[3]);
             edge(&mut b, rng, v[3], v[4]);
+        }
+        "bowtie" => {
+            // two cycles (3 or 4 long) sharing one variable: decomposes into two non-ear bags
+            let (n1, n2) = (3 + rng.below(2), 3 + rng.below(2));
+            let v = sv(&mut b, n1 + n2 - 1);
+            for i in 0..n1 {
+                edge(&mut b, rng, v[i], v[(i + 1) % n1]);
+            }
+            let second: Vec<usize> = std::iter::once(v[0]).chain(v[n1..].iter().copied()).collect();
+            for i in 0..n2 {
+                edge(&mut b, rng, second[i], second[(i + 1) % n2]);
+            }
+        }
+        "cactus" => {
+            // triangles chained through different shared variables
+            let v = sv(&mut b, 5 + 2 * rng.below(2));
+            let mut i = 0;
+            while i + 2 < v.len() {
+                edge(&mut b, rng, v[i], v[i + 1]);
+                edge(&mut b, rng, v[i + 1], v[i + 2]);
+                edge(&mut b, rng, v[i + 2], v[i]);
+                i += 2;
+            }
         }
         "product" => {
             let v = sv(&mut b, 4);
@@ -474,6 +497,42 @@ fn gen_rows(rng: &mut Rng, dom: usize, out: &mut Vec<String>, scale: usize, only
             }
         }
         let n = (*rng.pick(&sizes)).min(if t.cols.len() == 1 { dom } else { 400 }) * scale;
+        let ncols = t.cols.len() + t.out.is_some() as usize;
+        if ncols >= 2 && t.out.is_none() && rng.chance(1, 5) {
+            // contiguous runs: per key a block of 17..40 consecutive rows that share the key (and, for
+            // wider tables, one more column whose value recurs under several keys) and differ in the
+            // last column
+            let nkeys = 2 + rng.below(4);
+            let shared = rng.below(dom);
+            for _ in 0..nkeys {
+                let key = rng.below(dom);
+                let len = 17 + rng.below(24);
+                for j in 0..len {
+                    let mut vals: Vec<String> = vec![];
+                    let all: Vec<Ty> = t.cols.iter().copied().chain(t.out).collect();
+                    for (ci, c) in all.iter().enumerate() {
+                        let x = if ci == 0 { key } else if ci + 1 == all.len() { 1000 + j } else { shared };
+                        vals.push(match c {
+                            Ty::S => nterm(x),
+                            Ty::I => (x % 1000).to_string(),
+                        });
+                    }
+                    match t.out {
+                        Some(Ty::I) => {
+                            let v = vals.pop().unwrap();
+                            out.push(format!("(set ({} {}) {v})", t.name, vals.join(" ")));
+                        }
+                        Some(Ty::S) => {
+                            // constructor: the output is whatever id the term gets; union it with the wanted leaf
+                            let v = vals.pop().unwrap();
+                            out.push(format!("(union ({} {}) {v})", t.name, vals.join(" ")));
+                        }
+                        None => out.push(format!("({} {})", t.name, vals.join(" "))),
+                    }
+                }
+            }
+            continue;
+        }
         let skew = rng.below(3);
         let heavy = rng.below(dom);
         for _ in 0..n {
